@@ -13,3 +13,13 @@ package errors
 //@   fresh
 //@   ensures result != nil && result.(*singleOrdaError) && result.(*singleOrdaError).Code == its
 //@   modifies singleOrdaError.Code
+
+// NewRPCError turns a refusal into the gRPC error returned to the caller: it must BE an error
+// for every OrdaError (a nil error with a nil message is neither an answer nor an error).
+//@ func NewRPCError
+//@   mode math
+//@   props C16
+//@   requires oErr != nil
+//@   dispatch OrdaError : *singleOrdaError | *MultipleOrdaErrors
+//@   ensures[is-an-error] result != nil
+//@   modifies nothing
